@@ -64,6 +64,8 @@ EXPECT = {
     "seed-C13-s": ["C13"], "seed-C14-s": ["C14"], "seed-C16-s": ["C16", "C01"], "seed-C17-s": ["C17"], "seed-C18-s": ["C18"], "seed-C19-s": ["C19"],
     "seed-C01-x": ["C01"], "seed-C02-x": ["C02"], "seed-C04-x": ["C04"], "seed-C05-x": ["C05"], "seed-C09-x": ["C09"], "seed-C10-x": ["C07"], "seed-C12-x": ["C12", "C04"],
     "seed-C13-x": ["C13"], "seed-C14-x": ["C14", "C13"], "seed-C16-x": ["C16", "C08"], "seed-C17-x": ["C17"], "seed-C19-x": ["C19"],
+    "seed-C06-y": ["C06"], "seed-C07-y": ["C07"], "seed-C09-y": ["C09", "C06"], "seed-C10-y": ["C10"], "seed-C13-y": ["C13"], "seed-C14-y": ["C14"], "seed-C15-y": ["C15", "C06"],
+    "seed-C17-y": ["C17"], "seed-C18-y": ["C18"], "seed-C19-y": ["C19", "C06"],
     "seed-C07-o": ["C07"], "seed-C08-o": ["C08"], "seed-C10-o": ["C10"], "seed-C11-o": ["C11"], "seed-C13-o": ["C13"], "seed-C16-o": ["C16"], "seed-C19-o": ["C19"],
 }
 
